@@ -58,6 +58,9 @@ def mixed_pages(tier):
 def obligations(tier):
     q = tier == 'quick'
     o = mixed_pages(tier)
+    from props import C08
+    sd = C08.skip_depth(); sd.name = 'metadata/' + sd.name     # a footer / page header nesting containers one level per byte (stack exhaustion)
+    o.append(sd)
     if q:
         # the quick tier must finish well inside 15 minutes: every byte position of skeleton 0's footer (24 obligations x 8
         # positions), the first 48 bytes of the data region (page header + body of the first pages), strided samples for the
